@@ -35,6 +35,9 @@ def main():
         meta = json.load(open(d / "meta.json"))
         needs = " ".join(l.strip() for l in meta.get("needs", "").split("\n") if l.strip() and not l.startswith("#"))[:330].replace("|", "/")
         r = res.get(d.name, {})
+        if meta.get("status") == "neutralised":
+            print(f"| {d.name} | {needs} | neutralised by a repair of /repo (see its meta.json): the demo passes with the change applied |")
+            continue
         cells = []
         for s in ("seed0", "seed1"):
             x = r.get(s)
